@@ -227,9 +227,9 @@ class FnSpec:
             tps.append(name + ((": " + " + ".join(bnds)) if (bnds and place == "inline") else ""))
         if getattr(self, "deps_last", False) and len(tps) > 1:
             tps = tps[1:] + tps[:1]
-        items += tps
-        for name, ty in self.const_params:
-            items.append("const %s: %s" % (name, ty))
+        consts = ["const %s: %s" % (name, ty) for name, ty in self.const_params]
+        # const parameters may be declared before or after the type parameters
+        items += (consts + tps) if getattr(self, "const_first", False) else (tps + consts)
         return ("<" + ", ".join(items) + ">") if items else ""
 
     def where_text(self):
